@@ -140,8 +140,12 @@ package funcGen
 //@   ensures result1 == nil ==> nonnil(result0)
 //@   ensures[function-of-operands] ((result1 == nil) == fieldOK(box(m), key)) && (result1 == nil ==> box(result0) == fieldV(box(m), key))
 //@   assigns nothing
+// whether a value is a map, and whether a value is a closure, are functions of the value (assumed for the host's handlers)
+//@ ghost func isMapV(v any) bool
+//@ ghost func cloOK(v any) bool
 //@ interface-contract MapHandler.IsMap
 //@   option no-impl-check
+//@   ensures[function-of-value] result == isMapV(box(value))
 //@   assigns nothing
 //@ interface-contract ClosureHandler.FromClosure
 //@   option no-impl-check
@@ -153,6 +157,7 @@ package funcGen
 //@   option no-impl-check
 //@   option params=c
 //@   ensures result1 ==> staticOK(result0) && (result0.IsPure ==> pureFn(result0.Func))
+//@   ensures[function-of-value] result1 == cloOK(box(c))
 //@   assigns nothing
 //@ interface-contract MethodHandler.GetMethod
 //@   option no-impl-check
@@ -307,8 +312,12 @@ package funcGen
 //@   loop 1 invariant frameShape(st, old(st), rangeidx) && 0 <= rangeidx && rangeidx <= len(argsFuncList)
 //@   loop 1 invariant slotsNonNil(st)
 //@   loop 1 invariant callerSlotsKept(st, old(st))
+// m.f(x): a closure stored in the field f of a map m is called in preference to a method f of maps, so that member
+// access written out (C16: exp' with m.x for every free identifier x) calls what the implicit form calls: the method
+// table is only consulted when m is not a map, has no field f, or the field does not hold a closure
 //@ closure FunctionGenerator.GenerateFunc anchor "error accessing method"
 //@   option body-only
+//@   assert[closure-field-wins-over-method C16] "g.methodHandler.GetMethod(value, name)" !(g.mapHandler != nil && g.closureHandler != nil && isMapV(box(value)) && fieldOK(box(value), name) && cloOK(fieldV(box(value), name)))
 //@   loop 1 invariant frameShape(st, old(st), rangeidx) && 0 <= rangeidx && rangeidx <= len(argsFuncList)
 //@   loop 1 invariant slotsNonNil(st)
 //@   loop 1 invariant callerSlotsKept(st, old(st))
